@@ -19,6 +19,7 @@ type rcptRec struct {
 	MailGen    int    `json:"mail_gen"`
 	Unmodelled bool   `json:"unmodelled,omitempty"` // syntactically odd command: not judged
 	Final      *reply `json:"final,omitempty"`      // LMTP: this recipient's reply after the data
+	finalIn    *ctx   // the transaction whose DATA/BDAT LAST produced Final (differs from tx after a greeting carry-over)
 	tx         *ctx
 }
 
@@ -38,6 +39,11 @@ type ctx struct {
 	CutData     bool       `json:"cut_data,omitempty"` // the session ended inside a DATA payload (no end-of-data line was sent)
 	CutWhere    string     `json:"cut_where,omitempty"`
 	CutBody     int        `json:"cut_body,omitempty"` // wire bytes sent after the blank line that ends the header
+	// AfterGreet: this transaction began right after a repeated greeting that was answered 2xx in the middle
+	// of the transaction Carried (no RSET, no final reply in between) - go-smtp still holds the MAIL flag
+	// and the recipient list of Carried (repeat_test.go, "carry-over").
+	AfterGreet bool `json:"after_greeting,omitempty"`
+	Carried    *ctx `json:"-"`
 }
 
 // cutWhere says whether the bytes of a DATA payload that were sent contain the complete header,
@@ -67,6 +73,7 @@ type engine struct {
 	sawEOF  bool // the server closed the connection and we saw it
 	stuckOp string // the command whose reply provably never comes (client.deadlock)
 	inBdat  bool   // a non-LAST chunk of the current transaction was answered 2xx: a chunked transfer is open
+	carry   *ctx   // the transaction a repeated greeting (answered 2xx) has just ended while go-smtp kept its envelope
 
 	probeDomains map[string]bool // clean sender domains named in MAIL commands ("" = null sender)
 	counts       map[string]int64
@@ -82,6 +89,10 @@ func (e *engine) count(k string) { e.counts[k]++ }
 func (e *engine) ensure() *ctx {
 	if e.cur == nil {
 		e.cur = &ctx{Idx: len(e.txs)}
+		if e.carry != nil {
+			e.cur.AfterGreet, e.cur.Carried = true, e.carry
+			e.carry = nil
+		}
 		e.txs = append(e.txs, e.cur)
 	}
 	return e.cur
@@ -224,7 +235,12 @@ func (e *engine) handle(sl slot, r reply) {
 		case "greet":
 			if r.ok() && e.cur != nil {
 				// RFC 5321 4.1.4: a repeated EHLO resets the transaction.
+				prev := e.cur
 				e.terminate("ehlo", "aborted")
+				if prev.MailGen > 0 || len(e.goRcpts) > 0 || prev.AfterGreet {
+					// go-smtp's handleGreet keeps Conn.fromReceived and Conn.recipients
+					e.carry = prev
+				}
 			}
 		case "mail":
 			c := e.ensure()
@@ -252,6 +268,7 @@ func (e *engine) handle(sl slot, r reply) {
 			if r.ok() {
 				e.terminate("rset", "aborted")
 				e.goRcpts = nil
+				e.carry = nil
 			}
 		}
 	case "data":
@@ -332,7 +349,7 @@ func (e *engine) readFinals(c *ctx, term string, first *reply) {
 		}
 		return e.read()
 	}
-	defer func() { e.goRcpts = nil }()
+	defer func() { e.goRcpts, e.carry = nil, nil }()
 	if !e.sc.lmtp() {
 		r := next()
 		c.Final = r
@@ -380,6 +397,7 @@ func (e *engine) readFinals(c *ctx, term string, first *reply) {
 		}
 		rr := r
 		rc.Final = &rr
+		rc.finalIn = c
 		e.count("lmtp_rcpt_replies")
 	}
 	e.terminate(term, outcome)
